@@ -114,7 +114,9 @@ def _params(fdef):
 # ------------------------------------------------------------------------------------------------ parts
 def part_str2bool():
     f = find_def(load(UTILS), 'str2bool')
-    tr = ExprTranslator()
+    # `str(string)`: the argument is text on every path modelled here (the condition path passes `str(result)`), on
+    # text `str` is the identity
+    tr = ExprTranslator(calls={'str': lambda a: a[0]})
     return ('/-- `deep.utils.str2bool` -/\n' +
             tr.function(f, 'def str2bool (string : String) : Bool'))
 
@@ -410,6 +412,45 @@ def part_log():
 
 SPANA = 'src/deep/processor/context/span_action.py'
 
+EVAL_WATCH_TEMPLATE = '''
+var_processor = VariableSetProcessor({}, self.var_cache, self.collection_config)
+try:
+    result = self.trigger_context.evaluate_expression(watch)
+    variable_id, log_str = var_processor.process_variable(watch, result)
+    if variable_id.vid is None:
+        return (WatchResult(source, watch, None, %r), {}, log_str)
+    return (WatchResult(source, watch, variable_id), var_processor.var_lookup, log_str)
+except BaseException as e:
+    logging.exception('Error evaluating watch %%s', watch)
+    return (WatchResult(source, watch, None, str(e)), {}, str(e))
+'''
+
+
+def part_eval_watch():
+    """`ActionContext.eval_watch` (checked shape, then written out): what is reported for one expression"""
+    ew = find_def(load(ACTX), 'ActionContext.eval_watch')
+    limit_text = None
+    for n in ast.walk(ew):
+        if isinstance(n, ast.Call) and ast.unparse(n.func) == 'WatchResult' and len(n.args) == 4 \
+                and isinstance(n.args[3], ast.Constant) and isinstance(n.args[3].value, str):
+            limit_text = n.args[3].value
+    if limit_text is None or not same_shape(ew, EVAL_WATCH_TEMPLATE % limit_text):
+        raise Untranslatable('ActionContext.eval_watch changed shape')
+    return ('/-- what `eval_watch` reports for one expression: the WatchResult (source, expression, has a variable id?,\n'
+            '    error text) — and, when it has a variable, that variable\'s type name and value text — and the log string -/\n'
+            'structure WatchOut where\n  source : String\n  expr : String\n  hasResult : Bool\n  error : Option String\n'
+            '  ty : String\n  value : String\n  logStr : String\nderiving DecidableEq, Repr\n\n'
+            '/-- `ActionContext.eval_watch` (checked shape, written out).  `o` = what `evaluate_expression` returned — the\n'
+            '    value, or the exception OBJECT when evaluation raised (it is then collected like any other value);\n'
+            '    `budgetSpent` = `process_variable` found the variable budget used up (no id); `collectRaises` = collecting\n'
+            '    the value raised with this text. -/\n'
+            'def evalWatch (source watch : String) (o : Outcome) (budgetSpent : Bool) (collectRaises : Option String) : WatchOut :=\n'
+            '  match collectRaises with\n'
+            '  | some msg => ⟨source, watch, false, some msg, "", "", msg⟩\n'
+            '  | none =>\n'
+            f'    if budgetSpent then ⟨source, watch, false, some {lean_str(limit_text)}, "", "", o.text⟩\n'
+            '    else ⟨source, watch, true, none, o.ty, o.text, o.text⟩\n')
+
 
 def part_overrides():
     """every action context class that overrides `can_trigger` (enumerated from the sources), each translated"""
@@ -612,7 +653,7 @@ def generate():
              '    `text` = `str(result)`, `val` = the value when it is of a kind `float()` accepts. -/\n'
              'structure Outcome where\n  failed : Bool\n  isExc : Bool\n  ty : String\n  text : String\n  val : PyVal\n'
              'deriving DecidableEq, Repr\n',
-             part_str2bool(), part_can_trigger(), part_evaluate(), part_eval_sites(), part_overrides(),
+             part_str2bool(), part_can_trigger(), part_evaluate(), part_eval_sites(), part_overrides(), part_eval_watch(),
              _optional(part_log, 'log action facts (C16)', 'logExtractionFailed'),
              _optional(part_metric, 'metric action facts (C17)', 'metricExtractionFailed'),
              'end Extracted.Expr\n']
